@@ -255,3 +255,110 @@ theorem sum_filter_split (l : List Entry) (level : Nat) :
         omega
 
 end C08
+
+namespace C08
+
+/-! ### `maxwarn` parser lemmas -/
+
+theorem splitColon_ne_nil (cs : List Char) : splitColon cs ≠ [] := by
+  cases cs with
+  | nil => simp [splitColon]
+  | cons c t =>
+    unfold splitColon
+    by_cases h : c = ':'
+    · simp [h]
+    · simp only [h, if_false]
+      split <;> simp
+
+theorem splitColon_no_colon (cs : List Char) (h : ':' ∉ cs) : splitColon cs = [cs] := by
+  induction cs with
+  | nil => rfl
+  | cons c t ih =>
+    have hc1 : c ≠ ':' := fun e => h (by simp [e])
+    have hc2 : ':' ∉ t := fun e => h (by simp [e])
+    unfold splitColon
+    simp only [hc1, if_false, ih hc2]
+
+theorem splitColon_append (a b : List Char) (h : ':' ∉ a) :
+    splitColon (a ++ ':' :: b) = a :: splitColon b := by
+  induction a with
+  | nil => simp [splitColon]
+  | cons c t ih =>
+    have hc1 : c ≠ ':' := fun e => h (by simp [e])
+    have hc2 : ':' ∉ t := fun e => h (by simp [e])
+    simp [splitColon, hc1, ih hc2]
+
+def allDigits (cs : List Char) : Bool := cs.all isDigitChar
+
+theorem digit_not_underscore (c : Char) (h : isDigitChar c = true) : c ≠ '_' := by
+  intro e; subst e; revert h; decide
+
+theorem validDigits_of_allDigits (cs : List Char) (hne : cs ≠ []) (h : allDigits cs = true) :
+    validDigits cs = true := by
+  induction cs with
+  | nil => exact absurd rfl hne
+  | cons c t ih =>
+    simp only [allDigits, List.all_cons, Bool.and_eq_true] at h
+    cases t with
+    | nil => simp [validDigits, h.1]
+    | cons d r =>
+      have hd : isDigitChar d = true := by
+        have := h.2; simp only [List.all_cons, Bool.and_eq_true] at this; exact this.1
+      have hnu : d ≠ '_' := digit_not_underscore d hd
+      have ht : validDigits (d :: r) = true := ih (by simp) (by simpa [allDigits] using h.2)
+      unfold validDigits
+      split
+      · simp_all
+      · simp_all
+      · simp_all
+      · simp_all
+
+theorem dropWhile_not_head {α} (p : α → Bool) (c : α) (t : List α) (h : p c = false) :
+    (c :: t).dropWhile p = c :: t := by simp [List.dropWhile, h]
+
+theorem digit_not_ws (c : Char) (h : isDigitChar c = true) : isWsChar c = false := by
+  cases hw : isWsChar c with
+  | false => rfl
+  | true =>
+    simp only [isWsChar, Bool.or_eq_true, decide_eq_true_eq] at hw
+    rcases hw with ((((( e | e) | e) | e) | e) | e) <;> (subst e; revert h; decide)
+
+theorem stripWs_allDigits (cs : List Char) (h : allDigits cs = true) : stripWs cs = cs := by
+  unfold stripWs
+  cases cs with
+  | nil => rfl
+  | cons c t =>
+    have hc : isDigitChar c = true := by
+      simp only [allDigits, List.all_cons, Bool.and_eq_true] at h; exact h.1
+    rw [dropWhile_not_head _ c t (digit_not_ws c hc)]
+    have hall : ∀ x ∈ (c :: t).reverse, isDigitChar x = true := by
+      intro x hx
+      have hx' : x ∈ c :: t := List.mem_reverse.mp hx
+      simp only [allDigits, List.all_eq_true] at h
+      exact h x hx'
+    cases hr : (c :: t).reverse with
+    | nil => simp at hr
+    | cons d r =>
+      have hd : isDigitChar d = true := hall d (by rw [hr]; simp)
+      rw [dropWhile_not_head _ d r (digit_not_ws d hd)]
+      rw [← hr]; simp
+
+/-- Python's `int` on a non-empty string of ASCII digits. -/
+theorem pyInt_digits (cs : List Char) (hne : cs ≠ []) (h : allDigits cs = true) :
+    pyInt cs = some (digitsVal cs : Int) := by
+  unfold pyInt
+  rw [stripWs_allDigits cs h]
+  have hv := validDigits_of_allDigits cs hne h
+  cases cs with
+  | nil => exact absurd rfl hne
+  | cons c r =>
+    have hc : isDigitChar c = true := by
+      simp only [allDigits, List.all_cons, Bool.and_eq_true] at h; exact h.1
+    have h1 : c ≠ '-' := by intro e; subst e; revert hc; decide
+    have h2 : c ≠ '+' := by intro e; subst e; revert hc; decide
+    split
+    · rename_i heq; injection heq with e _; exact absurd e h1
+    · rename_i heq; injection heq with e _; exact absurd e h2
+    · simp [hv]
+
+end C08
